@@ -57,7 +57,7 @@ def run(tier, seed):
     cases = uniq
     obs, fail, stats = observe(ctx, cases, "+".join(cfgs))
     recs = []
-    strip = lambda c: {"ms": c["ms"], "gs": c["gs"]}
+    strip = lambda c: {"ms": c["ms"], "gs": c["gs"], "tn": c.get("tn", False)}
     others = {i: FlatCase(i, c).others() for i, c in enumerate(cases)}
     for o in obs:
         r = dict(o)
